@@ -259,8 +259,8 @@ UNIT = dict(
         dict(name='range', harness='h_range', loop_contracts=True, properties=['C26', 'C18'], solvers=['cadical', 'z3'], timeout=dict(quick=600, thorough=1800), floor=5, level='proved-modular'),
         dict(name='nearest', harness='h_nearest', loop_contracts=True, properties=['C26'], solvers=['cadical', 'z3'], timeout=dict(quick=300, thorough=900), floor=2, level='proved-modular'),
     ],
-    trusted_base=['ASSUMED: std::map<unsigned, const std::string> insert/find/end/empty/rbegin and std::string construction/copy/assignment/data behave as ISO C++ specifies, in the single-witness '
+    trusted_base=['ASSUMED: std::map<unsigned, const std::string> insert/find/end/empty/rbegin/iterator increment (ascending key order) and std::string construction/copy/assignment/data behave as ISO C++ specifies, in the single-witness '
                   'abstraction (one arbitrary watched key exact, other keys nondeterministic, maximum key tracked) -- model bodies in specs/k_mper.py'],
-    assumptions=['memory persister only; the range retrieval MemoryPersister::get(from, to, session, callback) and the whole FilePersister are not under contract'],
+    assumptions=['memory persister only; the whole FilePersister is not under contract; the range retrieval\'s callback is a model that always asks to continue (a callback that returns false ends the retrieval early: not exercised)'],
 )
 UNIT['emit']['type_alias'] = []
